@@ -10,7 +10,7 @@ LOG=/tmp/confirm-$P-$N.log
 export CARGO_NET_OFFLINE=true
 [ -n "${SEED_RUSTFLAGS:-}" ] && export RUSTFLAGS="$SEED_RUSTFLAGS"
 [ -d $WT ] || git -C /repo worktree add -q --detach $WT HEAD
-cd $WT && git checkout -q --detach $(git -C /repo rev-parse HEAD) && git checkout -- . && git clean -fdq tests/
+cd $WT && git checkout -- . && git clean -fdq tests/ && git checkout -q --detach $(git -C /repo rev-parse HEAD)
 : > $LOG
 say() { echo "$*" | tee -a $LOG; }
 cp $SRC/demo.rs tests/seed_demo.rs
